@@ -22,7 +22,7 @@ def fixed_flags():
     """C04_*_FIXED of coq/Gen/Consts.v (written by tools/gen_consts_d/c04_reqrep.py from the current source)"""
     import re as _re
     txt = open(os.path.join(COQ, "Gen", "Consts.v")).read()
-    return {m.group(1): m.group(2) == "true" for m in _re.finditer(r"Definition C04_(\w+)_FIXED : bool := (true|false)", txt)}
+    return {m.group(1): m.group(2) == "true" for m in _re.finditer(r"Definition C04_(\w+?)(?:_FIXED)? : bool := (true|false)", txt)}
 
 
 def words(rng, n):
